@@ -138,6 +138,13 @@ fn once(c: &Case) -> Verdict {
     }
 }
 
+fn map_on(vs: &[usize], arcs: &[(usize, usize)]) -> MapDg {
+    MapDg {
+        vertices: vs.to_vec(),
+        arcs: arcs.iter().copied().filter(|(u, v)| vs.contains(u) && vs.contains(v)).collect(),
+    }
+}
+
 /// Small fixed cases for the Miri leg (Miri owns the thread schedule and
 /// reports data races even when the result happens to be right).
 pub fn miri_cases() -> Vec<Case> {
@@ -157,8 +164,8 @@ pub fn miri_cases() -> Vec<Case> {
                 op,
                 a,
                 b: Dg { order: n - 1, arcs: vec![(0, 1), (1, 0)] },
-                ma: MapDg { vertices: vec![0, 2, 5, 9, 11][..n.min(5)].to_vec(), arcs: vec![(0, 2), (2, 5)] },
-                mb: MapDg { vertices: vec![0, 2, 3, 9, 14][..n.min(5)].to_vec(), arcs: vec![(2, 0), (3, 9), (0, 2)] },
+                ma: map_on(&[0, 2, 5, 9, 11][..n.min(5)], &[(0, 2), (2, 5), (9, 11), (11, 0)]),
+                mb: map_on(&[0, 2, 3, 9, 14][..n.min(5)], &[(2, 0), (3, 9), (0, 2), (14, 3)]),
                 seed: 7 + n as u64,
                 p: 0.5,
                 cpus: 0,
@@ -166,7 +173,23 @@ pub fn miri_cases() -> Vec<Case> {
             });
         }
     }
-    let _ = empty;
+    // one larger case per threaded AdjacencyList operation (a shared-counter race needs
+    // several arcs per worker)
+    let n = 33;
+    let (_, complete) = closed_form("complete", n, 0);
+    for op in [0_u8, 2, 3, 4] {
+        out.push(Case {
+            op,
+            a: Dg { order: n, arcs: complete.clone() },
+            b: Dg { order: n - 1, arcs: vec![(0, 1), (1, 0)] },
+            ma: empty.clone(),
+            mb: empty.clone(),
+            seed: 1,
+            p: 0.5,
+            cpus: 0,
+            reps: 1,
+        });
+    }
     out
 }
 
